@@ -530,8 +530,8 @@ def run_grids(ws, grids, logdir):
             r.update(status="undecided", reason="overlay/compile error (lost anchor?): " + " | ".join(re.findall(r"^error.*$", o, re.M)[:3]))
         elif to:
             r.update(status="undecided", reason="timeout (native grid)")
-        elif panics:
-            at, msg = panics[0]
+        elif panics and rc != 0:
+            at, msg = panics[-1]   # the uncaught one (grids may catch and record panics of individual cases)
             r.update(status="refuted", reason=f"{msg} @ {at} on case {cases[-1] if cases else '?'}", case=cases[-1] if cases else None, tail=o[-2500:],
                      failed=[dict(description=msg, category="native-assertion", function=h.full, location=dict(file=at))])
         elif m and int(m.group(1)) > 0 and rc == 0:
